@@ -187,7 +187,8 @@ def layer_compile(run, f, rule='R11.lcompile'):
         which = recv.split('.')[-1]
         seen.add(which)
         a0 = norm(c.args[0]) if c.args else ''
-        a1 = norm(c.args[1]).replace(' ', '') if len(c.args) > 1 else ''
+        from ..names import itext
+        a1 = itext(f, c.args[1]) if len(c.args) > 1 else ''        # a mask computed once and named is read through
         run.check(recv == 'self.' + which and a0 == '%s.%s' % (g, which), rule, f, c,
                   'the %s of each gate must be embedded into the layer\'s %s (found %s.embed(%s))' % (which, which, recv, a0))
         run.check(a1.startswith('mask(%s.qubits,%s' % (g, N)), 'R13.local', f, c,
